@@ -388,15 +388,6 @@ func (w *tcpWorld) settle() tcpObs {
 	}
 }
 
-func tcpWait(ch chan struct{}, d time.Duration) bool {
-	select {
-	case <-ch:
-		return true
-	case <-time.After(d):
-		return false
-	}
-}
-
 func (w *tcpWorld) dial(none bool) *tcpSess {
 	a := w.side.addr
 	if none {
